@@ -1364,9 +1364,16 @@ fn main() {
     eprintln!("[gen] |R2|={} {:?}  |R3|={} {:?}", n2, by_kind(&r2), n3, by_kind(&r3));
 
     // every collected value must be reproduced by its recorded history (machinery self-check)
-    let bad_hist = par::par_map(&r2, |_, f| match rebuild(f.fam, &f.hist, f.rep) {
-        Some(v) => v.key != f.val.key,
-        None => true,
+    let bad_hist = par::par_map(&r2, |_, f| {
+        // the textual form stored in replay files must parse back to the same events
+        let parsed: Option<Vec<Ev>> = f.hist.iter().map(|e| Ev::parse(&e.text(), f.fam)).collect();
+        if parsed.as_deref() != Some(&f.hist[..]) {
+            return true;
+        }
+        match rebuild(f.fam, &f.hist, f.rep) {
+            Some(v) => v.key != f.val.key,
+            None => true,
+        }
     })
     .into_iter()
     .filter(|b| *b)
